@@ -101,6 +101,12 @@ class TreeModel:
                 self.files[path] = encode_text(text, nl)
             except (UnicodeError, LookupError):
                 raise ModelError("text not encodable in its declared encoding " + path)
+        elif kind == "bytes":
+            # contents written verbatim (latin-1 carries the raw bytes through JSON)
+            _, path, raw = op[:3]
+            if not self.is_file(path):
+                raise ModelError("write to a missing file " + path)
+            self.files[path] = raw.encode("latin-1")
         elif kind in ("mkdir", "mkfile"):
             path = op[1]
             if self.exists(path):
